@@ -403,8 +403,12 @@ pub fn minilp_says_unbounded(rows: &[Vec<f64>], bias: &[f64], cost: &[f64]) -> b
     let mut pb = Problem::new(OptimizationDirection::Minimize);
     let vars: Vec<minilp::Variable> = cost.iter().map(|c| pb.add_var(*c, (f64::NEG_INFINITY, f64::INFINITY))).collect();
     for (r, b) in rows.iter().zip(bias.iter()) {
-        let lin: Vec<(minilp::Variable, f64)> = vars.iter().cloned().zip(r.iter().cloned()).collect();
-        pb.add_constraint(lin.as_slice(), ComparisonOp::Le, *b);
+        // the same LP the library hands to minilp (as_linprog scales every row by a power of two so that its
+        // largest coefficient lies in [1, 2), since /repo fix "scale rows ...")
+        let mx = r.iter().fold(0.0f64, |a, x| a.max(x.abs()));
+        let sc = if mx.is_normal() { 2f64.powi(-(mx.log2().floor() as i32)) } else { 1.0 };
+        let lin: Vec<(minilp::Variable, f64)> = vars.iter().cloned().zip(r.iter().map(|v| v * sc)).collect();
+        pb.add_constraint(lin.as_slice(), ComparisonOp::Le, *b * sc);
     }
     match pb.solve() {
         Ok(sol) => vars.iter().any(|v| !sol[*v].is_finite()),
